@@ -59,6 +59,10 @@ def gen_cases(rng, tier):
         r = rng.randint(1, maxlen)
         c = rng.randint(1, maxlen) if rng.random() < 0.7 else r
         st = dtwgen.rand_settings(rng, r, c, allow_mld=False)
+        if kind in ("distance", "wps", "matrix") and rng.random() < 0.25:
+            # narrow window on long series with relaxed ends: the compacted two-row buffer of the ndim kernels
+            r, c = dtwgen.focus_lengths(rng, maxlen)
+            st = dtwgen.focus_settings(rng, r, c, allow_mld=False)
         if kind in ("ub", "prune"):
             # the multivariate Euclidean upper bound and its use for pruning: only where ED is a valid upper bound
             st["psi"] = None
